@@ -468,6 +468,16 @@ class ConnectedRemotePeer(RemotePeer):
                                                human(block_hash)))
                 return
 
+            previous_block = coinstate_prior.block_by_hash[block.header.summary.previous_block_hash]
+            if block.height != previous_block.height + 1:
+                # Checked here, because not every block gets validate_block_in_coinstate (see below), while the blocks
+                # are looked up by height all over the place (e.g. in ChainManager.get_get_blocks_message).
+                self.local_peer.logger.info(
+                    "%15s at height=%d, block received is invalid: %s, height=%d but previous block's height=%d" % (
+                        self.host, coinstate_prior.head().height, human(block_hash), block.height,
+                        previous_block.height))
+                return
+
             try:
                 validate_block_by_itself(block, int(time()))
             except Exception as e:
